@@ -61,6 +61,22 @@ class Check(BaseCheck):
             off = str(rng.choice(["as-drawn", "as-drawn", "max=0", "min=0", "negative"]))
             f = {"as-drawn": f, "max=0": f - f.max(), "min=0": f - f.min(), "negative": f - f.max() - 0.37 * np.ptp(f)}[off]
             yield dict(kind="tri", v=v, t=t, f=fs * f, a=a, affine=affine, flat=flat, name=c["name"], fscale=fs, pres=c.get("pres"), vdtype=c.get("vdtype"))
+        # flat meshes whose boundary passes twice through one vertex (two patches touching in a corner; a notch meeting a hole): oriented,
+        # edge-manifold, no unused vertex
+        g1, t1 = gen.grid(2, 2)
+        g1 = np.array(g1, float); t1 = np.array(t1)
+        corner = int(np.argmax(g1[:, 0] + g1[:, 1])); origin = int(np.argmin(g1[:, 0] + g1[:, 1]))
+        g2 = g1 + (g1[corner] - g1[origin])
+        t2 = t1 + len(g1)
+        t2 = np.where(t2 == len(g1) + origin, corner, t2)
+        keep = [i for i in range(2 * len(g1)) if i != len(g1) + origin]
+        ren = {old: new for new, old in enumerate(keep)}
+        bv = np.vstack([g1, g2])[keep]; bt = np.vectorize(ren.get)(np.vstack([t1, t2]))
+        bv = bv + 0.07 * np.column_stack([np.sin(1.3 * np.arange(len(bv))), np.cos(2.1 * np.arange(len(bv))), np.zeros(len(bv))]) * (np.arange(len(bv)) != corner)[:, None]
+        for rep in range(2):
+            a = rng.normal(size=3); a[2] = 0.0
+            Q = np.eye(3) if rep == 0 else gen.random_rotation(rng)
+            yield dict(kind="tri", v=bv @ Q.T, t=bt, f=(bv @ a) + 0.3, a=Q @ a, affine=True, flat=True, name="bowtie-flat", fscale=1.0)
         for c in gen.tet_stream(seed + 112, n_tet, "small"):
             v, t = c["v"], c["t"]
             if len(np.unique(t)) != len(v):
